@@ -72,7 +72,7 @@ Inductive tcase :=
 | PC (id : string) (defs : list attrdef) (init cur : record) (last : jv) (hlt : Z) (writable boolean integer : bool)
      (rec_ : record) (aft : record) (aft_last : jv) (aft_hlt : Z) (writes : list jv)
 | DC (name display : string) (hashes : list string) (rec_ : record) (name' display' : string) (hashes' : list string)
-| SC (before rec_ after : record)
+| SC (before rec_ after : record) (doc doc' : record)       (* states (clear attrs), record, what GET /devices shows *)
 | HC (ops : list op) (static ports slaves ports' slaves' : list string)
 | LC (name : string) (stored before after : list string)
 | GC (name : string) (stored : list string).     (* permanently offline slave: slave_ports ids, remote ids before / after; GC: a deleted slave *)
@@ -118,11 +118,13 @@ Definition ok_model (c : tcase) : bool :=
       | _ => same_rec (device_save (mk_device n d h)) rec_
              && device_eqb (device_load empty_hash_run (mk_device "" "" []) rec_) (mk_device n' d' h')
       end
-  | SC before rec_ after =>
+  | SC before rec_ after doc doc' =>
       match slave_load (norm_slave_rec before), slave_load rec_ with
       | Some s, Some s' =>
           same_rec (norm_slave_rec (slave_save s)) (norm_slave_rec rec_)
           && same_rec (norm_slave_rec (slave_save s')) (norm_slave_rec after)
+          && option_eqb jv_eqb (lookup "attrs" (slave_doc s)) (lookup "attrs" doc)
+          && option_eqb jv_eqb (lookup "attrs" (slave_doc s')) (lookup "attrs" doc')
       | _, _ => false
       end
   | HC ops static ports slaves ports' slaves' =>
@@ -140,7 +142,7 @@ Definition ok_spec (c : tcase) : bool :=
       port_survives eval_tw_run jv_eqb (mk_port id defs init cur last hlt w b i)
                     (mk_port id defs init aft aft_last aft_hlt w b i) writes tw_unknown
   | DC n d h _ n' d' h' => device_eqb (mk_device n d h) (mk_device n' d' h')
-  | SC before _ after => same_rec (norm_slave_rec before) (norm_slave_rec after)
+  | SC _ _ _ doc doc' => same_rec (norm_slave_rec doc) (norm_slave_rec doc')
   | HC ops static ports slaves ports' slaves' => str_list_eqb ports ports' && str_list_eqb slaves slaves'
   | LC _ _ before after => str_list_eqb before after
   | GC name stored => match load_ports name stored with [] => true | _ => false end      (* a deleted slave: no record would be reloaded *)
